@@ -61,6 +61,15 @@ class YieldCounter:
         if self.pop_name is not None and self.assume_n_ge_k:
             f.add_ge(self.n, self.k)
         env = Env(f)
+
+        def len_hook(e_, call):
+            # len(<local whose size is tracked>) is that size (not a fresh unknown)
+            cur = getattr(self, "_cur", None)
+            if call_name(call) == "len" and len(call.args) == 1 and isinstance(call.args[0], ast.Name) and cur is not None \
+                    and isinstance(cur.sizes.get(call.args[0].id), Lin):
+                return cur.sizes[call.args[0].id]
+            return None
+        env.hooks.append(len_hook)
         env.hooks.extend(self.hooks)
         env.assume_hooks.extend(self.assume_hooks)
         env.vars[self.k_name] = self.k
@@ -202,6 +211,7 @@ class YieldCounter:
 
     def stmt(self, s: ast.stmt, st: YState) -> list[YState]:
         env = st.env
+        self._cur = st
         if isinstance(s, ast.Expr):
             v = s.value
             if isinstance(v, ast.Yield):
@@ -516,6 +526,31 @@ class YieldCounter:
                             if k2 != cname and isinstance(v2, Lin) and env.vars.get(k2) != v2 and k2 in env.vars:
                                 env.vars[k2] = Opaque("modified in loop")
                     self.assumptions.append(f"the counter loop 'while {norm(t)}' makes progress (creation eventually succeeds)")
+                    return [st]
+        # retry loop: 'while True' around a try that yields once and then leaves the loop (break directly after the yield, or in the
+        # try's else); the handlers swallow the failure without leaving: the loop ends after exactly one successful yield
+        if isinstance(t, ast.Constant) and t.value is True:
+            tries = [b for b in s.body if isinstance(b, ast.Try)]
+            rest = [b for b in s.body if not isinstance(b, ast.Try)]
+            if len(tries) == 1 and not any(self.yields_in(b) for b in rest) \
+                    and not any(isinstance(x, (ast.Break, ast.Return)) for b in rest for x in ast.walk(b)):
+                tr = tries[0]
+                ys = [i for i, b in enumerate(tr.body) if self.yields_in(b)]
+                one_yield = len(ys) == 1 and isinstance(tr.body[ys[0]], ast.Expr) and isinstance(tr.body[ys[0]].value, ast.Yield)
+                leaves = one_yield and (any(isinstance(b, ast.Break) for b in tr.body[ys[0] + 1:]) or any(isinstance(b, ast.Break) for b in tr.orelse))
+                before_ok = one_yield and not any(isinstance(x, (ast.Break, ast.Return, ast.Continue)) for b in tr.body[:ys[0]] for x in ast.walk(b))
+                handlers_stay = all(not any(isinstance(x, (ast.Break, ast.Return, ast.Raise, ast.Yield, ast.YieldFrom)) for b in h.body for x in ast.walk(b))
+                                    for h in tr.handlers)
+                if leaves and before_ok and handlers_stay and tr.handlers and not tr.finalbody:
+                    st.count = self.add(st.count, Lin.c(1))
+                    for h in tr.handlers:
+                        for b in h.body:
+                            for x in ast.walk(b):
+                                if isinstance(x, (ast.AugAssign, ast.Assign)):
+                                    tg_ = x.target if isinstance(x, ast.AugAssign) else x.targets[0]
+                                    if isinstance(tg_, ast.Name) and tg_.id in env.vars:
+                                        env.vars[tg_.id] = Opaque("modified in a retry loop")
+                    self.assumptions.append("the retry loop 'while True: try: yield ...; break' makes progress (creation eventually succeeds)")
                     return [st]
         if any(self.yields_in(x) for x in s.body):
             st.count = Opaque(f"while-loop '{norm(t)[:40]}' is not a counter loop")
